@@ -105,7 +105,7 @@ func (g *generator) str() D {
 	return d
 }
 
-func (g *generator) time() D { return D{"g": "time", "v": []string{"jan1", "nov10"}[g.r.Intn(2)]} }
+func (g *generator) time() D { return D{"g": "time", "v": []string{"jan1", "nov10", "leap"}[g.r.Intn(3)]} }
 
 func (g *generator) marshaler() D {
 	switch g.r.Intn(5) {
